@@ -39,8 +39,11 @@ type ModuleSpec struct {
 	DigestType string     `json:"digest_type"`
 	Files      []FileSpec `json:"files"`
 	Deps       []DepSpec  `json:"deps,omitempty"`
-	BufYAML    *string    `json:"buf_yaml,omitempty"` // v1 buf.yaml side object
-	BufLock    *string    `json:"buf_lock,omitempty"` // v1 buf.lock side object
+	// BufYAMLName is the file name of the v1beta1/v1 configuration side object: "buf.yaml"
+	// (also when empty) or the legacy, still supported "buf.mod".
+	BufYAMLName string  `json:"buf_yaml_name,omitempty"`
+	BufYAML     *string `json:"buf_yaml,omitempty"` // v1 buf.yaml side object
+	BufLock     *string `json:"buf_lock,omitempty"` // v1 buf.lock side object
 }
 
 // FilesMap returns path -> content.
@@ -142,11 +145,19 @@ func RefB4Digest(files map[string][]byte, side map[string][]byte, cache ...*Hash
 	return RefManifestDigest(all, cache...)
 }
 
+// ConfigName is the file name of the configuration side object.
+func (m ModuleSpec) ConfigName() string {
+	if m.BufYAMLName == "" {
+		return "buf.yaml"
+	}
+	return m.BufYAMLName
+}
+
 // SideFiles returns the side objects by file name.
 func (m ModuleSpec) SideFiles() map[string][]byte {
 	out := map[string][]byte{}
 	if m.BufYAML != nil {
-		out["buf.yaml"] = []byte(*m.BufYAML)
+		out[m.ConfigName()] = []byte(*m.BufYAML)
 	}
 	if m.BufLock != nil {
 		out["buf.lock"] = []byte(*m.BufLock)
@@ -228,7 +239,7 @@ func (m ModuleSpec) ModuleData(ctx context.Context) (bufmodule.ModuleKey, bufmod
 	}
 	var yamlObj, lockObj bufmodule.ObjectData
 	if m.BufYAML != nil {
-		if yamlObj, err = bufmodule.NewObjectData("buf.yaml", []byte(*m.BufYAML)); err != nil {
+		if yamlObj, err = bufmodule.NewObjectData(m.ConfigName(), []byte(*m.BufYAML)); err != nil {
 			return nil, nil, err
 		}
 	}
